@@ -197,9 +197,20 @@ func restartPhase2(rc *restartCtx) []Violation {
 			add("not-schedulable-after-restart", fmt.Sprintf("after the restart a schedule request for pipeline %s fails: %v", p, err))
 		}
 	}
-	c2, cf := context.WithTimeout(context.Background(), 2*time.Second)
-	_ = r2.Shutdown(c2)
-	cf()
+	// let the probe jobs finish, then stop the persist loop (no Shutdown: its WaitGroup use is not
+	// safe against a concurrent save of the persist loop, which is outside this property)
+	for i := 0; i < 2000; i++ {
+		busy := false
+		r2.IterateJobs(func(j *prunner.PipelineJob) {
+			if !j.Completed && !j.Canceled {
+				busy = true
+			}
+		})
+		if !busy {
+			break
+		}
+		time.Sleep(time.Millisecond)
+	}
 	cancel()
 	return vs
 }
@@ -449,10 +460,7 @@ func runCodecUnit(u Unit) UnitResult {
 			add("finished-job-report-differs:"+diffKeys(ka, kb), fmt.Sprintf("job %s is reported differently after the restart (differences in: %s):\nbefore: %v\nafter:  %v", shortID(id), diffKeys(ka, kb), ka, kb))
 		}
 	}
-	c2, cf := context.WithTimeout(context.Background(), 2*time.Second)
-	_ = r2.Shutdown(c2)
-	_ = r.Shutdown(c2)
-	cf()
+	cancel()
 	res.Execs = njobs
 	res.States = nvals
 	res.Transitions = nvals
